@@ -66,7 +66,7 @@ def _run(spec, prop, tier, seed, replay, wd):
         for y in body["yaml"]:
             print("---\n" + y, end="")
         import drive
-        drive.DRIVER = spec.get("driver", "builder")
+        drive.DRIVER = spec.get("driver", "builder").split("+")[0]
         outs = drive.stage_outcomes(body["docs"], body["safes"])
         for j, o in enumerate(outs):
             print(f"  library after stage {j+1}:", json.dumps(E.compact_node(o) if "err" not in o else {"e": o["err"]}))
